@@ -113,6 +113,14 @@ def step (ps : Option PartSet.PartSet) (toks : List String) : Option PartSet.Par
       (some s', match r with
         | .added => "added" | .dup => "dup" | .errIndex => "err-index" | .errProof => "err-proof")
     | _, _, _, _ => (ps, "bad-op")
+  | "pvalidate" :: rest =>
+    match (kv rest "bytes").bind ofHex, parseProof rest with
+    | some b, some pr =>
+      (ps, match partValidateBasic { index := 0, bytes := b, proof := pr } with
+        | .ok _ => "ok"
+        | .error .tooBig => "err-too-big"
+        | .error _ => "err-proof")
+    | _, _ => (ps, "bad-op")
   | ["done"] =>
     match ps with
     | some s =>
